@@ -219,33 +219,36 @@ _PADE = [(3, 1.495585217958292e-2), (5, 2.539398330063230e-1), (7, 9.50417899616
 
 
 def _pade_truncation(X, n):
-    """Leading truncation term, in the upper-right block, of the low-order Pade approximant that
-    scipy's expm (Al-Mohy & Higham 2009) selects from d_k = |X^k|^(1/k), k = 4, 6, 8, 10.
+    """(in_regime, term): the regime of the recorded finding `van-loan-pade-order-tiny-Q`, and the
+    leading truncation term, in the upper-right block, of the low-order Pade approximant that scipy's
+    expm (Al-Mohy & Higham 2009) selects there from d_k = |X^k|^(1/k), k = 4, 6, 8.
 
-    The selection is NORMWISE: when the powers of F vanish or are tiny (nilpotent F of index <= 4:
-    chains of integrators) while F^i Q (F^T)^j does not, a tiny Q makes d_k tiny, a low order m is
-    chosen and the term c_m X^(2m+1) that is dropped is negligible against |exp X| ~ 1 but NOT against
-    the upper-right block (which is itself of the size of Q).  This is deterministic truncation, not
-    rounding; it is reported as a finding and modelled here (homogeneous in Q) so that the unchanged
-    tree does not alarm.  c_m = (m!)^2 / ((2m)! (2m+1)!)."""
+    The selection is NORMWISE.  Regime: the dynamics block is nilpotent of index <= 4 ((F dt)^4 = 0:
+    chains of at most four integrators) but (F dt)^3 != 0, so that d_4, d_6, d_8 come from Q alone; a
+    tiny Q then makes them tiny, a low order m is chosen, and the dropped term c_m X^(2m+1)
+    (c_m = (m!)^2 / ((2m)! (2m+1)!), for m = 3: F^3 Q (F^T)^3 dt^7 / 100800) is negligible against
+    |exp X| ~ 1 but NOT against the upper-right block, which is itself of the size of Q.  This is
+    deterministic truncation, not rounding.  Outside this regime the term is NOT part of any tolerance:
+    every other inexactness of Qd is a violation."""
     if n == 0:
-        return 0.0
-    pw = {1: X}
-    for k in (2, 3):
-        pw[k] = pw[k - 1] @ X
-    pw[4] = pw[2] @ pw[2]
-    pw[6] = pw[4] @ pw[2]
-    pw[8] = pw[4] @ pw[4]
-    d = {k: _n1(pw[k]) ** (1.0 / k) for k in (4, 6, 8)}
+        return False, 0.0
+    A = X[:n, :n]
+    na = _n1(A)
+    A2 = A @ A
+    A3, A4 = A2 @ A, A2 @ A2
+    if not (na > 0 and _n1(A4) <= 1e-13 * na ** 4 and _n1(A3) > 1e-13 * na ** 3 and X[:n, n:].any()):
+        return False, 0.0
+    X2 = X @ X
+    X4 = X2 @ X2
+    X6, X8 = X4 @ X2, X4 @ X4
+    d = {4: _n1(X4) ** 0.25, 6: _n1(X6) ** (1 / 6.0), 8: _n1(X8) ** 0.125}
     eta = {3: max(d[4], d[6]), 5: max(d[4], d[6]), 7: max(d[6], d[8]), 9: max(d[6], d[8])}
     worst = 0.0
     for m, theta in _PADE:
         if eta[m] < 2.0 * theta:                 # slack: scipy estimates the norms
-            k = 2 * m + 1
-            P = np.linalg.matrix_power(X, k)
             cm = math.factorial(m) ** 2 / (math.factorial(2 * m) * math.factorial(2 * m + 1))
-            worst = max(worst, cm * _n1(P[:n, n:]))
-    return worst
+            worst = max(worst, cm * _n1(np.linalg.matrix_power(X, 2 * m + 1)[:n, n:]))
+    return worst > 0.0, worst
 
 
 def _scale(F, Q, dt):
@@ -253,7 +256,8 @@ def _scale(F, Q, dt):
     homogeneous of degree 1 in Q (Qd is linear in Q, and so is the rounding error of the upper-right
     block of a block-triangular computation), so a zero or wrongly scaled Qd cannot hide behind an
     absolute tolerance; Phi does not depend on Q except through the number of squarings (|X|).
-    `trunc` is the Pade truncation term (see _pade_truncation), compared with its own margin."""
+    In the regime of the recorded finding (only there) the Pade truncation term is added, with its
+    own margin."""
     n = len(F)
     X = np.zeros((2 * n, 2 * n))
     X[:n, :n], X[:n, n:], X[n:, n:] = F, Q, -F.T
@@ -264,8 +268,10 @@ def _scale(F, Q, dt):
     nd = max(n11, n22, 1.0)
     u = EPS * (1 + nx) * nd
     q12 = max(n12, _n1(Q) * dt)           # magnitude of the upper-right block and of what it is summed from
-    trunc = _pade_truncation(X, n) * max(n11, 1.0) * TRUNC_MARGIN / MARGIN      # in units of MARGIN
-    return dict(bPhi=u + 1e-300, bQd=u * q12 * max(n11, 1.0) + EPS * n * n11 * n12 + trunc, nx=nx)
+    regime, term = _pade_truncation(X, n)
+    trunc = term * max(n11, 1.0) * TRUNC_MARGIN / MARGIN      # in units of MARGIN
+    return dict(bPhi=u + 1e-300, bQd=u * q12 * max(n11, 1.0) + EPS * n * n11 * n12 + trunc, nx=nx,
+                regime=regime)
 
 
 def check_case(c, oracle='auto', verbose=False, stats=None):
@@ -303,6 +309,8 @@ def check_case(c, oracle='auto', verbose=False, stats=None):
     if Phi.shape != (n, n) or Qd.shape != (n, n) or not (np.isfinite(Phi).all() and np.isfinite(Qd).all()):
         return fails + [("output shape / non-finite output", {})], math.inf
     sc = _scale(F, Q, dt)
+    if stats is not None and sc['regime']:
+        stats['_regime_cases'] = stats.get('_regime_cases', 0) + 1
     # exact zero step
     if dt == 0.0:
         if not (np.array_equal(Phi, np.eye(n)) and not Qd.any()):
@@ -407,6 +415,7 @@ def numeric_statements(r, count, seed_off, nmax=24, exact_nmax=8):
             dist[k] = dist.get(k, 0) + 1
         for what, det in f:
             fails.append((what, dict(key='C08-numeric', case=_hexcase(c), detail=det)))
+    dist['_known_finding_regime_cases'] = int(stats.pop('_regime_cases', 0))
     dist['_worst_ratio_by_statement'] = {k: float(f'{v:.3g}') for k, v in sorted(stats.items())}
     return fails, worst, dist
 
@@ -426,18 +435,85 @@ def check(r):
         "NOT proved: scipy's Pade approximant equals the limit of the series up to rounding -- checked numerically "
         "against exact rational arithmetic",
     ]
+    known = corpus_witnesses(r)                  # FIRST: the witnesses of the recorded findings
     ok = gen_mx.run_generate(r, ['Kalman'])
     gen_mx.prove_or_undischarged(r, ok, 'Props/C08.v')     # never proves against a stale Gen file
     n = 600 if r.tier == "quick" else 20000
     fails, worst, dist = numeric_statements(r, n, 8, nmax=24, exact_nmax=8 if r.tier == "quick" else 12)
+    r.coverage['known_finding_regime_cases'] = dist.pop('_known_finding_regime_cases')
     r.coverage['distribution'] = dist
     r.coverage['numeric_support'] = dict(cases=n, failures=len(fails), margin_units=MARGIN,
                                          worst_error_over_tolerance=worst)
-    r.log(f"numeric support: {n} cases, {len(fails)} failures, worst error/tolerance {worst:.2e}")
+    r.log(f"numeric support: {n} cases ({r.coverage['known_finding_regime_cases']} in the regime of the recorded "
+          f"finding), {len(fails)} failures, worst error/tolerance {worst:.2e}")
     for what, rep in fails[:5]:
         r.violation(what, rep)
-    if r.tier == 'thorough':
-        r.hygiene()
+    if r.tier == 'thorough' and ok:
+        r.coqchk('Props/C08.v')
+        r.hygiene('Props/C08.v')
+    # the driver runs the falsifier only when NO violation at all was recorded; a recorded known finding
+    # must not suppress it
+    if r.breaks and known and len(r.violations) == known:
+        r.log("running falsifier on the implementation (only known findings recorded so far) ...")
+        r.falsified = True
+        falsify(r)
+
+
+KNOWN_KEY = 'van-loan-pade-order-tiny-Q'
+CORPUS = os.path.join(os.path.dirname(os.path.dirname(os.path.dirname(os.path.abspath(__file__)))),
+                      'corpus', 'C08-findings.json')
+
+
+def witness_deviation(w):
+    """relative error of the named entry of Qd against the exact rational value (pure Fractions)."""
+    from pyins import kalman
+    F, Q, dt = np.array(w['F'], float), np.array(w['Q'], float), float(w['dt'])
+    i, j = w.get('entry', [0, 0])
+    _, Qd = kalman.compute_process_matrices(F.copy(), Q.copy(), dt)
+    _, Qx = phi_qd_fraction(F, Q, dt, terms=30)
+    got, exact = float(np.asarray(Qd)[i, j]), float(Qx[i, j])
+    return got, exact, (abs(got - exact) / abs(exact) if exact != 0 else (0.0 if got == 0 else math.inf))
+
+
+def corpus_witnesses(r):
+    """Recorded findings: when the implementation still shows the deviation, report it through the
+    KNOWN-FINDING protocol (r.violation with the finding's key: the driver prints KNOWN-FINDING and does
+    not count it); when it has disappeared, note that in the evidence.  Returns the number recorded."""
+    import json
+    rec, notes = 0, []
+    if not os.path.exists(CORPUS):
+        r.broken('harness', 'corpus', f"{CORPUS} is missing")
+        return 0
+    for w in json.load(open(CORPUS))['cases']:
+        try:
+            got, exact, rel = witness_deviation(w)
+        except Exception as ex:
+            r.violation(f"corpus witness {w['name']}: compute_process_matrices raised {type(ex).__name__}: {ex}",
+                        dict(key='C08-numeric', corpus=w['name'], witness=w))
+            continue
+        r.case(('corpus', w['name']), sample=dict(corpus=w['name'], got=got, exact=exact, rel_err=rel))
+        still = rel > float(w.get('rel_threshold', 1e-6))
+        notes.append(dict(name=w['name'], key=w['expect'], got=got, exact=exact, rel_err=rel, still_deviates=still))
+        if still and rel > float(w.get('rel_max', 0.02)):
+            # far beyond the recorded deviation: something else is wrong -> an ordinary violation
+            r.violation(f"corpus witness {w['name']}: Qd entry = {got!r} instead of {exact!r} (relative error {rel:.3e}, "
+                        "far beyond the recorded finding)",
+                        dict(key='C08-numeric', corpus=w['name'], witness=w, got=got, exact=exact, rel_err=rel))
+            continue
+        if still:
+            i, j = w.get('entry', [0, 0])
+            r.violation(f"Qd[{i},{j}] = {got!r} instead of {exact!r} (relative error {rel:.3e}): the Pade order scipy's "
+                        "expm selects normwise drops a term that is not negligible against the E12 block",
+                        dict(key=w['expect'], corpus=w['name'], witness=w, got=got, exact=exact, rel_err=rel))
+            rec += 1
+            r.log(f"corpus witness {w['name']}: deviation still present (rel. error {rel:.3e}) -> known finding "
+                  f"{w['expect']}")
+        else:
+            r.notes.append(f"corpus witness {w['name']} of finding {w['expect']} no longer deviates "
+                           f"(rel. error {rel:.3e}); the finding may be retired")
+            r.log(f"corpus witness {w['name']}: the deviation has disappeared (rel. error {rel:.3e})")
+    r.coverage['corpus_witnesses'] = notes
+    return rec
 
 
 def falsify(r):
@@ -457,6 +533,12 @@ def falsify(r):
 
 def replay(obj):
     rep = obj.get('replay', obj)
+    if 'witness' in rep:                    # a corpus witness (known finding)
+        got, exact, rel = witness_deviation(rep['witness'])
+        still = rel > float(rep['witness'].get('rel_threshold', 1e-6))
+        print(f"C08 corpus witness {rep['witness'].get('name')}: Qd entry = {got!r}, exact = {exact!r}, "
+              f"relative error {rel:.3e} -> " + ("still deviates" if still else "no longer deviates"))
+        return 1 if still else 0
     c = _unhex(rep['case'])
     print(f"C08 replay: n={c['n']} F:{c.get('kind')} rank Q={c.get('rankQ')} dt={c['dt']!r} "
           f"sub-steps={c['parts']}")
